@@ -423,6 +423,29 @@ def gen_schema(r, name, feat):
                     a = cands[0]
                     e["attrs"].append({"name": a["name"], "type": {"k": "int"}, "optional": a.get("optional", False), "redecl": par["name"]})
                     break
+    if feat.get("inverse") and r.random() < 0.5:
+        # a subtype that narrows an inherited entity-valued attribute (SELF\\sup.a : sub_of_target): the referrer's slot keeps its place,
+        # the resolver of inverse attributes has to cope with the redeclaring STEPattribute
+        done = False
+        for e in ents:
+            if done or not e["supers"] or len(e["supers"]) != 1 or any(e["name"] in lc for lc in legal_complex):
+                continue
+            par = sch.ents[e["supers"][0]]
+            if any(par["name"] in lc for lc in legal_complex) or any(x.get("redecl") for x in e["attrs"] + e["derived"]):
+                continue
+            for a in par["attrs"]:
+                t = a["type"]
+                tgt = t["name"] if t["k"] == "ent" else (t["elem"]["name"] if t["k"] == "agg" and t["elem"]["k"] == "ent" else None)
+                if a.get("redecl") or not tgt:
+                    continue
+                narrower = [d for d in sch.descendants(tgt) if d != tgt and d != e["name"]]
+                if not narrower:
+                    continue
+                nt = r.choice(narrower)
+                new_t = {"k": "ent", "name": nt} if t["k"] == "ent" else dict(t, elem={"k": "ent", "name": nt})
+                e["attrs"].append({"name": a["name"], "type": new_t, "optional": a.get("optional", False), "redecl": par["name"]})
+                done = True
+                break
     if feat.get("inverse"):
         add_inverse(r, sch, ents)
     sd = {"name": name, "types": types, "entities": ents, "legal_complex": legal_complex, "simple_ok": simple_ok, "features": dict(feat)}
@@ -472,6 +495,13 @@ def add_inverse(r, sch, ents):
                 te["inverse"].append({"name": "inv_%s_%d" % (a["name"], n), "ent": e["name"], "attr": a["name"],
                                       "agg": None if single else r.choice(["SET", "BAG"]), "lo": 0, "hi": None})
                 n += 1
+                subs = [d for d in sch.descendants(e["name"]) if d != e["name"]]
+                if subs and not single and r.random() < 0.4 and n < 5:
+                    # the same attribute inverted once more, this time declared over a SUBTYPE of the entity that owns it:
+                    # only referrers that are instances of that subtype count
+                    te["inverse"].append({"name": "inv_%s_%ds" % (a["name"], n), "ent": r.choice(subs), "attr": a["name"],
+                                          "agg": r.choice(["SET", "BAG"]), "lo": 0, "hi": None})
+                    n += 1
 
 
 # ============================================================ population model
